@@ -693,12 +693,11 @@ class PSFPhotometry(ModelImageMixin):
 
         # grouper is ignored (for this call only) if group_id is input
         # in init_params
-        grouper = self.grouper
         if 'group_id' in init_params.colnames:
-            grouper = None
-        if grouper is not None:
-            group_id = grouper(init_params[xcolname],
-                               init_params[ycolname])
+            group_id = init_params['group_id']
+        elif self.grouper is not None:
+            group_id = self.grouper(init_params[xcolname],
+                                    init_params[ycolname])
         else:
             group_id = init_params['id'].copy()
         init_params['group_id'] = group_id
